@@ -1,2 +1,3 @@
 pub mod combiner;
 pub mod dump;
+pub mod header;
